@@ -243,7 +243,7 @@ impl PropImpl for C10 {
         vec!["layout:L0", "layout:L1", "layout:L2", "has:substvar", "has:empty-entry", "has:alternatives", "part:archqual", "part:version", "part:epoch", "part:tilde", "part:hyphen-in-upstream-version", "part:epoch+hyphen-in-upstream-version", "part:architectures", "part:negated-architecture", "part:profiles", "part:several-profile-groups", "part:multi-term-profile-group", "op:<<", "op:<=", "op:=", "op:>=", "op:>>", "has:newline", "has:tab"]
     }
     fn budget(&self, tier: Tier) -> Budget {
-        Budget { cases_per_lane: if tier == Tier::Quick { 15000 } else { 60_000 }, tape_max: 500, cpu_s: 10 }
+        Budget { cases_per_lane: if tier == Tier::Quick { 45000 } else { 180000 }, tape_max: 500, cpu_s: 10 }
     }
     fn spaces(&self, _tier: Tier) -> Vec<Space> {
         vec![Space { name: "one relation: parts x operators x versions x layouts x contexts".into(), size: ENUM_SIZE, exhaustive: true }]
